@@ -297,5 +297,8 @@ class Indicators(HoloPyObject):
             for function in functions:
                 self.bound = bound_union(self.bound, find_bounds(function))
 
+    def __len__(self):
+        return len(self.functions)
+
     def __call__(self, points):
         return [test(points) for test in self.functions]
